@@ -27,6 +27,7 @@ type vmG struct {
 	quiescing  bool
 	depth      int
 	exited     chan struct{}
+	vc         vclock
 }
 
 type scheduler struct {
@@ -64,6 +65,12 @@ func (s *scheduler) spawn(fr *frame, fn value, args []value, name string) *vmG {
 	g := &vmG{id: len(s.gs), name: name, resume: make(chan struct{}, 1), background: true, exited: make(chan struct{})}
 	s.gs = append(s.gs, g)
 	i := s.i
+	if i.race != nil && i.race.on {
+		// goroutine start: everything the creator did happens before the child
+		g.vc = s.current.vc.copyOf()
+		g.tick()
+		s.current.tick()
+	}
 	go func() {
 		defer close(g.exited)
 		<-g.resume
@@ -72,6 +79,9 @@ func (s *scheduler) spawn(fr *frame, fn value, args []value, name string) *vmG {
 		}
 		defer func() {
 			p := recover()
+			if i.race != nil && i.race.on && s.current == g {
+				i.release(g) // goroutine end (joined by vrt.WaitAll)
+			}
 			g.done = true
 			if p != nil {
 				if _, ok := p.(vmKill); ok {
@@ -338,6 +348,7 @@ func chanClose(i *interpreter, c *vmchan) {
 	if c.closed {
 		panic(targetRuntimeError("close of closed channel"))
 	}
+	i.release(c)
 	c.closed = true
 }
 
@@ -349,6 +360,7 @@ func chanSend(fr *frame, c *vmchan, v value) {
 	if c.closed {
 		panic(targetRuntimeError("send on closed channel"))
 	}
+	fr.i.release(c)
 	if len(c.buf) < c.cap {
 		c.buf = append(c.buf, v)
 		return
@@ -389,9 +401,11 @@ func chanRecv(fr *frame, c *vmchan) (value, bool) {
 	}
 	for {
 		if v, ok := c.take(); ok {
+			fr.i.acquire(c)
 			return v, true
 		}
 		if c.closed {
+			fr.i.acquire(c)
 			return nil, false
 		}
 		s.park(c.recvReady, "chan receive")
@@ -449,6 +463,7 @@ func doSelect(fr *frame, instr *ssa.Select) value {
 			x.c.buf = append(x.c.buf, x.v)
 		} else {
 			recv, recvOk = x.c.take()
+			fr.i.acquire(x.c)
 		}
 	}
 	r := tuple{chosen, recvOk}
@@ -487,6 +502,7 @@ func init() {
 		m := fr.i.mutex(a[0].(*value))
 		fr.i.sched.park(func() bool { return m.writer == nil && m.readers == 0 }, "mutex Lock")
 		m.writer = fr.i.sched.current
+		fr.i.acquire(m)
 		return nil
 	}
 	unlock := func(fr *frame, a []value) value {
@@ -494,6 +510,7 @@ func init() {
 		if m.writer == nil {
 			panic(targetStringPanic("sync: unlock of unlocked mutex"))
 		}
+		fr.i.release(m)
 		m.writer = nil
 		return nil
 	}
@@ -501,6 +518,7 @@ func init() {
 		m := fr.i.mutex(a[0].(*value))
 		fr.i.sched.park(func() bool { return m.writer == nil }, "mutex RLock")
 		m.readers++
+		fr.i.acquire(m)
 		return nil
 	}
 	runlock := func(fr *frame, a []value) value {
@@ -508,6 +526,7 @@ func init() {
 		if m.readers == 0 {
 			panic(targetStringPanic("sync: RUnlock of unlocked RWMutex"))
 		}
+		fr.i.release(m)
 		m.readers--
 		return nil
 	}
